@@ -571,7 +571,7 @@ def reduction_room(ck, rule):
             if len(cl) == 1:
                 arg = cl[0][2][0]
                 names = arg.symbols()
-                okcount = arg == Term.var("x.size") or (nm == "trace" and len(names) == 1 and "diagonal" in names[0] and names[0].rstrip(">").endswith(".size"))
+                okcount = arg == Term.var("x.size") or (nm == "trace" and len(names) == 1 and "diagonal" in names[0] and names[0].rstrip(">").endswith(".size") and arg == Term.var(names[0]))
                 rest = extra - Term.atom(cl[0])
                 okcount = okcount and nonneg(rest)
             ck.check(okcount, rule, f, "%s: n_int >= x.n_int + ceil(log2(N)) with N at least the number of addends (%s)" % (nm, "diagonal length" if nm == "trace" else "x.size bounds every axis length"),
